@@ -187,20 +187,70 @@ class Acct:
                     for z in flow.subtrees(a.flow.rvalue(st['r'], 0)):
                         if z[0] == 'sizeof' and z[2] is not None:
                             SIZES[sg(z[1])] = z[2]
-        adds = self.acc_adds()
+        # -- the accumulator family: ACC and every local whose total is added into a member ("n_bytes" of an inlined
+        #    helper that returns the bytes it wrote)
+        family = {self.acc}
+        transfers = {}          # member -> [(block, si)] statements `other member += member`
+        changed = True
+        while changed:
+            changed = False
+            for b in sorted(a.cfg.reach0):
+                for si, st in enumerate(a.blocks[b]['s']):
+                    u = paths.additive_update(a, st)
+                    if not u or len(u[0]) != 1 or u[0][0] not in family or u[1] != 1:
+                        continue
+                    x = u[2]
+                    while x[0] == 'cast':
+                        x = x[1]
+                    if x[0] == 'local' and x[2] and x[2] not in family and self.is_counter(x[1]):
+                        family.add(x[2])
+                        changed = True
+                    if x[0] == 'local' and x[2] in family and x[2] != u[0][0]:
+                        transfers.setdefault(x[2], set()).add((b, si))
+        self.family = family
+        adds = []
+        for b in sorted(a.cfg.reach0):
+            for si, st in enumerate(a.blocks[b]['s']):
+                u = paths.additive_update(a, st)
+                if u and len(u[0]) == 1 and u[0][0] in family and u[1] == 1 and (b, si) not in {t for ts in transfers.values() for t in ts}:
+                    adds.append((b, si, u[2]))
         self.stats['adds'] = len(adds)
+        # other places where a count can enter the position: a non-additive definition of a member (`let mut pos =
+        # header.serialize(w)?`) and a final expression `pos + last.serialize(w)?` that is returned or stored
+        inits = []
+        for b in sorted(a.cfg.reach0):
+            for si, st in enumerate(a.blocks[b]['s']):
+                d = st.get('d')
+                if d and 'p' not in d and a.flow.lname(d['l']) in family and st.get('r') and not paths.additive_update(a, st):
+                    inits.append(a.flow.rvalue(st['r'], 0))
+        finals = [e for (_, _, _, e) in a.ret_sites() if flow.mentions(e, lambda z: z[0] == 'local' and z[2] in family)]
+        for (rb, rsi, _, e) in a.ret_sites():
+            for (_, _, se) in a.flow.sources(e, (rb, rsi)):
+                if flow.mentions(se, lambda z: z[0] == 'local' and z[2] in family):
+                    finals.append(se)
+        # a sub-accumulator must be handed on before the function returns normally
+        fail = a.failing_blocks()
+        rets = set(a.cfg.returns)
+        for m in sorted(family - {self.acc}):
+            ts = transfers.get(m, set())
+            madds = [(b, si) for (b, si, x) in adds if paths.additive_update(a, a.blocks[b]['s'][si])[0] == (m,)]
+            for (b, si) in madds:
+                r = a.cfg.reach(list(a.cfg.succ[b]), cut_blocks=[tb for (tb, _) in ts])
+                if not ts or ((r & rets) - fail):
+                    self.viol.append((b, si, 'bytes counted in %s here are not added to the output position %s on every path before the function returns' % (m, self.acc)))
+                    break
         sites = self.write_sites()
         direct_adds = set()
         bulk_sites = {}     # loop head -> [(c, ty)]
+        mentions_site = lambda e, c: a.err_rooted_at(e, c) or flow.mentions(e, lambda z: z[0] == 'call' and len(z) > 3 and z[3] == c)
         for (c, ty, nm) in sites:
-            hit = [(b, si) for (b, si, x) in adds if a.err_rooted_at(x, c) or flow.mentions(x, lambda z: z[0] == 'call' and len(z) > 3 and z[3] == c)]
-            if hit:
-                # the addend is the count this write returned: same iteration, nothing to pair
+            hit = [(b, si) for (b, si, x) in adds if mentions_site(x, c)]
+            if hit or any(mentions_site(e, c) for e in inits) or any(mentions_site(e, c) for e in finals):
+                # the count this write returned enters the position: same iteration, nothing to pair
                 self.stats['direct'] += 1
                 direct_adds.update(hit)
                 continue
             lp = L._loop_of(a, c)
-            inner = lp
             if lp is not None and L.every_iteration_passes(a, lp, c) and ty is not None:
                 bulk_sites.setdefault(lp[0], []).append((c, ty))
                 continue
@@ -217,10 +267,19 @@ class Acct:
             blks = loops[head]
             lp = (head, blks)
             trips = self.trip_count(lp)
-            exp = {}
+            exp, per_iter = {}, {}
             for (c, ty) in ss:
                 k_ = (trips, None) if ty in SIZES else (trips, ty)
                 exp[k_] = exp.get(k_, 0) + (SIZES[ty] if ty in SIZES else 1)
+                k2 = (None, None) if ty in SIZES else (None, ty)
+                per_iter[k2] = per_iter.get(k2, 0) + (SIZES[ty] if ty in SIZES else 1)
+            # (a) counted inside the loop, once per iteration, by a constant equal to what the iteration writes
+            inside = [(b, si, x) for (b, si, x) in bulk_adds if b in blks and L._loop_of(a, b)[0] == head and L.every_iteration_passes(a, lp, b)]
+            good_in = [cd for cd in inside if poly(cd[2]) == per_iter]
+            if good_in:
+                self.stats['bulk'] += len(ss)
+                used.update((cd[0], cd[1]) for cd in good_in[:1])
+                continue
             exits = [y for (x, y) in L._exits(a, blks)]
             cands = []
             for (b, si, x) in bulk_adds:
@@ -238,6 +297,7 @@ class Acct:
                 continue
             c0 = ss[0][0]
             per = ' + '.join('size_of(%s)' % t.split('::')[-1] for (_, t) in ss)
+            cands = cands or inside
             if cands:
                 self.viol.append((cands[0][0], cands[0][1], 'the loop at line %d writes %s bytes in each of its %s iterations without counting them, and the output position %s is advanced by %s for it: every later offset in the footer is off by the difference'
                                   % (a.line(c0), per, disp(trips) or '?', self.acc, show_poly(poly(cands[0][2])))))
@@ -248,6 +308,24 @@ class Acct:
             if (b, si) not in used:
                 self.viol.append((b, si, 'the output position %s is advanced by %s, which is neither the byte count returned by a write nor the total of a loop of uncounted writes' % (self.acc, show_poly(poly(x)) if poly(x) is not None else flow.show(x)[:60])))
         return self
+
+    def is_counter(self, l):
+        """a local that starts at a constant (or a write count) and is otherwise only added to"""
+        a = self.a
+        ds = a.flow.defs.get(l, [])
+        if not ds:
+            return False
+        for d in ds:
+            if d[0] != 'assign':
+                return False
+            st = a.blocks[d[1]]['s'][d[2]]
+            if paths.additive_update(a, st):
+                continue
+            e = a.flow.rvalue(d[3], 0)
+            if e[0] == 'const':
+                continue
+            return False
+        return True
 
     def trip_count(self, lp):
         a = self.a
@@ -270,4 +348,7 @@ class Acct:
                     z = z[2][0]
                 if z[0] in ('local', 'field', 'call', 'param'):
                     return _key('len', z)
+        c = L.counting_loop(a, lp, lambda y: True)
+        if c is not None and c.get('bound') is not None:
+            return count_key(c['bound'])
         return None
